@@ -3,6 +3,7 @@ import CpProofs.C13Inv
 import CpProofs.C13NoSweep
 import CpProofs.C13Req
 import CpProofs.C13File
+import CpProofs.C13N
 /-!
   C13 — session access is mutually exclusive and the lock is always released.
 
